@@ -208,6 +208,10 @@ Definition decode_varuint (b : bytes) : (N * bytes) + nverr :=
     if (v <? 0)%Z || negb (v <? two64Z)%Z then inr NvNotUint64
     else inl (Z.to_N v, rest).
 
+(** The payload DecodeVarUint hands to BigIntFromNeoBytes (specification side). *)
+Definition varuint_payload (b : bytes) : bytes :=
+  let '(value, _, _, _) := nv_next_varbytes b in value.
+
 (** DecodeVarUintWrapping: only negative values are refused; v.Uint64() keeps the low 64 bits. *)
 Definition decode_varuint_wrapping (b : bytes) : (N * bytes) + nverr :=
   let '(value, irr, eof, rest) := nv_next_varbytes b in
@@ -286,6 +290,12 @@ Definition balance_of_bytes (raw : bytes) : Z + rawerr :=
     | inr e => inr (RawBal e)
     end
   end.
+
+(** Specification side: the items MustToStorageItem can produce (see Proofs/NeoInt.v). *)
+Definition balance_item_canonical (it : storage_item) : bool :=
+  if state_version it =? DefaultVersion then (length (item_value it) =? 8)%nat
+  else (state_version it =? ScaleDecimal9Version) && neo_canonical (item_value it)
+       && balance_is_float (Z_of_neo (item_value it)).
 
 (** Well-formed item: version is a byte, value is a byte string. *)
 Definition wf_item (it : storage_item) : bool :=
